@@ -4,8 +4,8 @@
   Proved for Fork, for every input stream, fan-out, capacity and interleaving: every output
   always holds a prefix of the input in order (nothing lost, duplicated, reordered or
   invented), nothing is delivered after closure, and when the network has run to completion
-  each reader has read exactly the input.  Split and Join are specified (`splitSpec`) and
-  checked on the real code over all schedules of small programs, but NOT proved in Lean.
+  each reader has read exactly the input.  Split and Split→Join: Props/C06Split.lean.
+  Termination of all three networks: Props/C06Term.lean, C06TermSplit.lean, C06TermJoin.lean.
 -/
 import CollectionModel.Model.Pipes
 namespace CM
